@@ -1,7 +1,21 @@
 use crate::catch;
 use crate::common::ordered_work_steal::Ordered;
+use dashmap::{DashMap, DashSet};
 use std::ffi::c_longlong;
 use std::hash::{DefaultHasher, Hash, Hasher};
+use std::sync::{Arc, Condvar, Mutex};
+
+/// Where the outcome of a task is delivered: the maps of the pool the task
+/// was submitted to. A task may be stolen and run by another pool, but the
+/// thread that joins it waits on the pool it was submitted to.
+#[allow(clippy::type_complexity)]
+#[repr(C)]
+#[derive(Debug, Clone, Default)]
+pub(crate) struct TaskSink<'t> {
+    pub(crate) waits: Arc<DashMap<u64, Arc<(Mutex<bool>, Condvar)>>>,
+    pub(crate) results: Arc<DashMap<u64, Result<Option<usize>, &'t str>>>,
+    pub(crate) no_waits: Arc<DashSet<u64>>,
+}
 
 /// 做C兼容时会用到
 pub type UserTaskFunc = extern "C" fn(usize) -> usize;
@@ -17,6 +31,8 @@ pub struct Task<'t> {
     func: Box<dyn FnOnce(Option<usize>) -> Option<usize> + 't>,
     param: Option<usize>,
     priority: Option<c_longlong>,
+    #[educe(Debug(ignore))]
+    sink: Option<TaskSink<'t>>,
 }
 
 impl<'t> Task<'t> {
@@ -36,7 +52,18 @@ impl<'t> Task<'t> {
             func: Box::new(func),
             param,
             priority,
+            sink: None,
         }
+    }
+
+    /// Remember where the outcome has to be delivered.
+    pub(crate) fn set_sink(&mut self, sink: TaskSink<'t>) {
+        self.sink = Some(sink);
+    }
+
+    /// Take the delivery address out of the task.
+    pub(crate) fn take_sink(&mut self) -> Option<TaskSink<'t>> {
+        self.sink.take()
     }
 
     /// get the task name.
